@@ -170,5 +170,40 @@ fn store_run_output(run_output: &RunOutput, run_path: &path::Path, Tracked(w): T
     Ok(())
 }
 //!end
+
+// ---- Logs::new: where a task's two archives live ----
+pub mod log {
+//!const src/app/log.rs STDOUT_FILE
+    pub const STDOUT_FILE: &⟦'static ⟧str = "stdout.zst";
+//!end
+//!const src/app/log.rs STDERR_FILE
+    pub const STDERR_FILE: &⟦'static ⟧str = "stderr.zst";
+//!end
+}
+//!type src/app/run.rs Logs
+pub struct Logs {
+    pub stdout_path: path::PathBuf,
+    pub stderr_path: path::PathBuf,
+}
+//!end
+impl Logs {
+//!fn src/app/run.rs Logs::new rules=R10,R17 props=C08,C12
+    fn new(run_path: &path::Path, command: &str, target_hash: &str, Tracked(w): Tracked<&mut World>) -> ⟦(res: ⟧Result<Self, MonorailError>⟦)⟧
+@        ensures
+@            // C08 / C12: a task's archives are <slot>/<command>/<target hash>/stdout.zst and stderr.zst - the layout `log show` walks -
+@            // and naming them touches no file
+@            res matches Ok(l) ==> l.stdout_path@ == path_join(path_join(path_join(run_path@, command@), target_hash@), log::STDOUT_FILE@)
+@                && l.stderr_path@ == path_join(path_join(path_join(run_path@, command@), target_hash@), log::STDERR_FILE@), // [C08,C12]
+@            final(w).fs == old(w).fs,
+    {
+        let dir_path = run_path.join(command).join(target_hash);
+        fs::create_dir_all(&dir_path, Tracked(w))?;
+        Ok(Self {
+            stdout_path: dir_path.clone().join(log::STDOUT_FILE),
+            stderr_path: dir_path.clone().join(log::STDERR_FILE),
+        })
+    }
+//!end
+}
 } // verus!
 fn main() {}
